@@ -5,6 +5,7 @@ package main
 
 import (
 	"bytes"
+	"compress/gzip"
 	"compress/zlib"
 	"encoding/json"
 	"encoding/xml"
@@ -130,6 +131,14 @@ func failedWriteBefore(v entVal, codec string, pretty bool, budget int) {
 	safely(func() { resp.WriteEntity(v) })
 }
 
+// clients compress at any level (the zlib header differs per level: 78 01, 78 5e, 78 9c, 78 da); cycled deterministically
+var encLevelSeq int
+
+func encLevel() int {
+	encLevelSeq++
+	return []int{-1, 1, 2, 3, 5, 6, 9, 0}[encLevelSeq%8]
+}
+
 func encodeBody(plain []byte, k entKind) []byte {
 	if k.Dmg == "empty" {
 		return []byte{}
@@ -140,10 +149,14 @@ func encodeBody(plain []byte, k entKind) []byte {
 	var body []byte
 	switch k.CE {
 	case "gzip":
-		body = gzipBytes(plain)
+		var buf bytes.Buffer
+		w, _ := gzip.NewWriterLevel(&buf, encLevel())
+		w.Write(plain)
+		w.Close()
+		body = buf.Bytes()
 	case "deflate":
 		var buf bytes.Buffer
-		w := zlib.NewWriter(&buf)
+		w, _ := zlib.NewWriterLevel(&buf, encLevel())
 		w.Write(plain)
 		w.Close()
 		body = buf.Bytes()
